@@ -213,6 +213,10 @@ def _events():
             # calls that cannot succeed
             var("V:%s:%s:BADCOL" % (slot, st), slot, st, "BADCOL", "NODE", ["nope"], True, bad="column")
             var("V:%s:%s:BADCOL_EN" % (slot, st), slot, st, "BADCOL_EN", "ELEMENT_NODAL", ["v", "nope"], True, bad="column")
+            # ... a value column the file format cannot hold (object dtype: a number column with one 'n/a' in it): the call gets
+            # past the column selection and fails while the data are written
+            var("V:%s:%s:BADVAL" % (slot, st), slot, st, "BADVAL", "NODE", ["t"], True, bad="values")
+            var("V:%s:%s:BADVAL_EN" % (slot, st), slot, st, "BADVAL_EN", "ELEMENT_NODAL", ["v"], True, bad="values")
             var("V:%s:%s:NOLOC" % (slot, st), slot, st, "Q", None, ["t"], True, bad="location")
             var("V:%s:%s:NONAME" % (slot, st), slot, st, "UNKNOWN", None, None, False, bad="name")
     return ev
@@ -275,10 +279,10 @@ MENU_QUICK = [
     "G:tri3", "G:quad4i", "G:triquad", "G:tri3noz", "G:tri6i", "G:pent5", "G:tet4", "G:tethex", "G:hextet_i", "G:tet10", "G:pyr5",
     "NS:P", "ES:P", "NSX:P", "NS:S", "ES:S", "ESX:S",
     "V:P:s1:DISPLACEMENT", "V:P:s1:STRESS_CAUCHY", "V:P:s2:EN", "V:S:s1:STRESS_CAUCHY", "V:S:s1:T", "V:P:s1:ENSUB",
-    "V:P:s1:BADCOL", "V:S:s2:NOLOC",
+    "V:P:s1:BADCOL", "V:S:s2:NOLOC", "V:P:s1:BADVAL_EN",
 ]
 MENU_THOROUGH = MENU_QUICK + [
     "G:quad8", "G:hex8", "G:wedge6i",
     "V:S:s2:DISPLACEMENT", "V:P:s2:T", "V:S:s1:EN", "V:P:s1:E",
-    "V:S:s1:BADCOL_EN", "V:P:s2:NONAME", "NSX:S", "ESX:P",
+    "V:S:s1:BADCOL_EN", "V:P:s2:NONAME", "NSX:S", "ESX:P", "V:S:s1:BADVAL",
 ]
